@@ -57,6 +57,13 @@ def run(ctx):
     for fam, c in tg[:: max(1, len(tg) // (2 if ctx.quick else 20))][: (2 if ctx.quick else 20)]:
         models.append({"model": c["model"], "texts": [r["text"] for r in c["runs"][-3:]]})
     models.append({"model": wide_model(), "texts": [[0x3042, 0x30A2, 0x3042], [0x4E00 + i for i in range(12)]]})
+    # window sizes in the upper half of the u8 range (2*W does not fit into 8 bits)
+    for cw, tw in ((128, 255), (200, 127)):
+        models.append({"model": {"bias": 3, "cw": cw, "tw": tw,
+                                 "cng": [{"ng": [0x3042], "w": [((i * 7) % 23) - 11 for i in range(2 * cw)]}],
+                                 "tng": [{"ng": [3, 3], "w": [((i * 5) % 17) - 8 for i in range(2 * tw - 1)]}],
+                                 "dict": [{"ng": [0x3042, 0x3042], "w": [4, -9, 4], "c": []}], "tags": []},
+                       "texts": [[0x3042, 0x3042, 0x3042], [0x3042]]})
     wd = os.path.join(vlib.WORK, "record")
     os.makedirs(wd, exist_ok=True)
     mp = os.path.join(wd, "C07-models.ndjson")
